@@ -1019,6 +1019,148 @@ def r10_7(ctx):
                 f"flows through {chain}", {"flows_through": chain})
 
 
+# -- R10.8: the rewrite engine -----------------------------------------------------
+
+def _rewrite_files(ctx):
+  files = [REWRITE, "pytype/rewrite/function_call_helper.py",
+           "pytype/rewrite/frame.py"]
+  if ctx.tier == "thorough":
+    for rel in all_py_files(ctx, "pytype/rewrite"):
+      if not rel.endswith("_test.py") and rel not in files:
+        files.append(rel)
+  return files
+
+
+@rule("R10.8", "C10", floor=3)
+def r10_8(ctx):
+  """Rewrite engine: lookup walks the MRO, MRO errors are reported, repeated
+  bases are rejected."""
+  mod = get_module(ctx, REWRITE)
+  # (a) attribute lookup on a class follows *this* class's linearisation
+  qual = "SimpleClass.get_attribute"
+  fn = mod.func(qual)
+  aliases = {n.targets[0].id for n in walk_no_nested(fn)
+             if isinstance(n, ast.Assign) and len(n.targets) == 1
+             and isinstance(n.targets[0], ast.Name)
+             and src(n.value) == "self.mro()"}
+
+  def is_mro(e):
+    return src(e) == "self.mro()" or (isinstance(e, ast.Name) and e.id in aliases)
+
+  loops = []
+  for n in walk_no_nested(fn):
+    if isinstance(n, ast.For):
+      it = n.iter
+      tail = isinstance(it, ast.Subscript) and _tail_slice(it) in (
+          (1, None, None), (0, None, None), (None, None, None))
+      if is_mro(it) or (tail and is_mro(it.value)):
+        loops.append(n)
+      elif any(is_mro(x) for x in ast.walk(it)):
+        loops.append(n)
+  delegations = [c for c in calls_in(fn) if isinstance(c.func, ast.Attribute)
+                 and c.func.attr == "get_attribute"
+                 and isinstance(c.func.value, ast.Subscript)
+                 and is_mro(c.func.value.value)]
+  construct = f"{qual}:walks-own-mro"
+  if loops:
+    if len(loops) != 1:
+      raise AnalysisError(f"{qual}: several loops over the MRO")
+    lp = loops[0]
+    it = lp.iter
+    direct = is_mro(it) or (isinstance(it, ast.Subscript) and is_mro(it.value)
+                            and _tail_slice(it) is not None)
+    exits = any(isinstance(x, (ast.Return, ast.Break))
+                for x in flow._walk_loop_body(lp))
+    ctx.check(direct and exits and not delegations, construct, REWRITE,
+              lp.lineno, f"the lookup iterates `{src(it)}` (first-hit exit: "
+              f"{exits}); it must walk self.mro() forward and stop at the "
+              "first class that has the member",
+              {"iter": src(it), "first_hit_exit": exits})
+  elif delegations:
+    ctx.bad(f"{qual}:delegates-to-base-lookup", REWRITE, delegations[0].lineno,
+            f"a member missing from the class itself is looked up with "
+            f"`{src(delegations[0])}`: that continues along the *base's own* "
+            "linearisation, not this class's - for class C(A, B) with x "
+            "defined on B, C.mro() is [C, A, B, object] but the lookup visits "
+            "C, A, object and misses B.x",
+            {"delegates_to": src(delegations[0].func)})
+  else:
+    raise AnalysisError(f"{qual}: neither an MRO loop nor a delegation found")
+  # (b) an inconsistent hierarchy is reported, not raised through the VM
+  qual = "SimpleClass.mro"
+  fn = mod.func(qual)
+  merges = calls_in(fn, suffix="MROMerge")
+  if len(merges) != 1:
+    raise AnalysisError(f"{qual}: expected one MROMerge call")
+  local = [h for t in _enclosing_trys(mod, merges[0], fn) for h in t.handlers
+           if "MROError" in _handler_types(h)]
+  elsewhere = []
+  for rel in _rewrite_files(ctx):
+    m = get_module(ctx, rel)
+    for n in ast.walk(m.tree):
+      if isinstance(n, ast.ExceptHandler) and "MROError" in _handler_types(n):
+        elsewhere.append(f"{rel}:{n.lineno}")
+  if not local and elsewhere:
+    raise AnalysisError(
+        f"rewrite engine catches MROError at {elsewhere}, not around the "
+        "merge: cannot decide whether every path is covered")
+  if not local:
+    ctx.bad(f"{qual}:MROError-uncaught", REWRITE, merges[0].lineno,
+            "MROMerge can raise MROError (class E(A, B) with B a subclass of "
+            "A) but nothing in pytype/rewrite catches it: the analysis "
+            "crashes instead of reporting [mro-error]",
+            {"handlers_in_rewrite": elsewhere})
+  else:
+    h = local[0]
+    logs = [c for st in h.body for c in calls_in(st)
+            if (dotted(c.func) or "").endswith("errorlog.mro_error")]
+    ctx.check(bool(logs), f"{qual}:mro-error-reported", REWRITE, h.lineno,
+              "the MROError handler around the merge does not call "
+              "errorlog.mro_error: the inconsistent hierarchy is swallowed",
+              {"logs": [src(c.func) for c in logs]})
+  # (c) repeated direct bases
+  dup_here = [n for n in ast.walk(fn) if isinstance(n, ast.Compare)
+              and _dup_compare(n) is not None]
+  raises = []
+  for rel in _rewrite_files(ctx):
+    m = get_module(ctx, rel)
+    for n in ast.walk(m.tree):
+      if isinstance(n, ast.Raise) and _exc_name(n.exc) == "MROError":
+        raises.append(f"{rel}:{n.lineno}")
+      if isinstance(n, ast.Compare) and _dup_compare(n) is not None and \
+          n not in dup_here:
+        raises.append(f"{rel}:{n.lineno}")
+  construct = f"{qual}:duplicate-base-test"
+  if dup_here:
+    test = dup_here[0]
+    holder = mod.enclosing_stmt(test)
+    lst, fires_on_dup = _dup_compare(test)
+    rs = [r for r in ast.walk(holder) if isinstance(r, ast.Raise)]
+    if not isinstance(holder, ast.If) or not rs or fires_on_dup is None:
+      raise AnalysisError(f"{qual}: duplicate test shape not understood")
+    in_body = any(r in ast.walk(ast.Module(body=holder.body, type_ignores=[]))
+                  for r in rs)
+
+    def gen(unit):
+      return ["dup-tested"] if unit is test else []
+    f = flow.flow(fn, gen)
+    st = f.before.get(mod.enclosing_stmt(merges[0]))
+    ctx.check(fires_on_dup == in_body and st is not None and "dup-tested" in st,
+              construct, REWRITE, test.lineno,
+              f"`{src(test)}` must raise exactly for a repeated base and "
+              "dominate the merge", {"test": src(test)})
+  elif raises:
+    raise AnalysisError(
+        f"rewrite engine raises MROError / tests duplicates at {raises}: "
+        "shape not understood")
+  else:
+    ctx.bad(f"{qual}:no-duplicate-base-test", REWRITE, merges[0].lineno,
+            "no test for a repeated direct base in the rewrite engine: "
+            "MROMerge de-duplicates the bases row, so `class D(A, A)` is "
+            "accepted where CPython raises TypeError (duplicate base class)",
+            {"raises_MROError": 0})
+
+
 # -- sensitivity suite -----------------------------------------------------------
 
 VARIANTS = [
@@ -1123,6 +1265,26 @@ VARIANTS = [
     {"name": "twin-merge-rename-candidate", "rule": "R10.6", "file": MRO, "expect": "silent",
      "old": "          if other_seq and other_seq[0] == cand:\n            del other_seq[0]",
      "new": "          if other_seq and cand == other_seq[0]:\n            del other_seq[0]"},
+    # R10.8 (today's three instances are known findings; the variants repair
+    # the construct and then break it in a way the known entry does not cover)
+    {"name": "twin-rewrite-lookup-repaired", "rule": "R10.8", "file": REWRITE, "expect": "silent",
+     "old": "    mro = self.mro()\n    if len(mro) > 1:\n      return mro[1].get_attribute(name)\n    return None",
+     "new": "    for cls in self.mro()[1:]:\n      if name in cls.members:\n        return cls.members[name]\n    return None"},
+    {"name": "twin-rewrite-mro-error-caught", "rule": "R10.8", "file": REWRITE, "expect": "silent",
+     "old": "    self._mro = mro = mro_lib.MROMerge(mro_bases)\n    return mro",
+     "new": "    try:\n      self._mro = mro = mro_lib.MROMerge(mro_bases)\n    except mro_lib.MROError as e:\n      self._ctx.errorlog.mro_error(None, self.name, e.mro_seqs)\n      self._mro = mro = [self, obj_type]\n    return mro"},
+    {"name": "twin-rewrite-duplicate-test-added", "rule": "R10.8", "file": REWRITE, "expect": "silent",
+     "old": "    bases = list(self.bases)\n    obj_type = self._ctx.types[object]",
+     "new": "    bases = list(self.bases)\n    if len(set(bases)) != len(bases):\n      raise mro_lib.MROError([bases])\n    obj_type = self._ctx.types[object]"},
+    {"name": "rewrite-lookup-repaired-but-backwards", "rule": "R10.8", "file": REWRITE, "expect": "fire",
+     "old": "    mro = self.mro()\n    if len(mro) > 1:\n      return mro[1].get_attribute(name)\n    return None",
+     "new": "    for cls in reversed(self.mro()):\n      if name in cls.members:\n        return cls.members[name]\n    return None"},
+    {"name": "rewrite-mro-error-swallowed", "rule": "R10.8", "file": REWRITE, "expect": "fire",
+     "old": "    self._mro = mro = mro_lib.MROMerge(mro_bases)\n    return mro",
+     "new": "    try:\n      self._mro = mro = mro_lib.MROMerge(mro_bases)\n    except mro_lib.MROError:\n      self._mro = mro = [self, obj_type]\n    return mro"},
+    {"name": "rewrite-duplicate-test-inverted", "rule": "R10.8", "file": REWRITE, "expect": "fire",
+     "old": "    bases = list(self.bases)\n    obj_type = self._ctx.types[object]",
+     "new": "    bases = list(self.bases)\n    if len(set(bases)) == len(bases):\n      raise mro_lib.MROError([bases])\n    obj_type = self._ctx.types[object]"},
     # R10.7
     {"name": "compute_mro-result-through-set", "rule": "R10.7", "file": MIXIN, "expect": "fire",
      "old": "return tuple(base2cls[base] for base in mro.MROMerge(newbases))",
